@@ -399,3 +399,249 @@ Section Run.
     apply (run_canon ops s0 s C0 F0 Hw E).
   Qed.
 End Run.
+
+(** * Equal integers are identical objects *)
+Theorem ocanon_inj a b : ocanon a -> ocanon b -> okind a = okind b -> oval a = oval b -> a = b.
+Proof.
+  destruct a, b; cbn; intros Ca Cb K V; try discriminate; f_equal.
+  - apply canon_inj; auto.
+  - apply icanon_inj; auto.
+Qed.
+
+(** ** Eq *)
+Lemma list_eqb_spec a : forall b, list_eqb a b = true <-> a = b.
+Proof.
+  induction a as [|x a IH]; intros [|y b]; cbn; split; intros H; try congruence; try reflexivity.
+  - apply andb_prop in H as [H1 H2]. apply Z.eqb_eq in H1. apply IH in H2. congruence.
+  - injection H as -> ->. rewrite Z.eqb_refl. cbn. apply IH. reflexivity.
+Qed.
+
+Lemma list_eqb_val a b : canon a -> canon b -> list_eqb a b = (val a =? val b).
+Proof.
+  intros Ca Cb. destruct (Z.eqb_spec (val a) (val b)) as [E|N].
+  - apply list_eqb_spec. apply canon_inj; auto.
+  - destruct (list_eqb a b) eqn:L; [|reflexivity]. apply list_eqb_spec in L. subst. congruence.
+Qed.
+
+Theorem ueq_spec a b : canon a -> canon b -> ueq a b = Ret (val a =? val b).
+Proof.
+  intros Ca Cb. unfold ueq. rewrite !canon_last_nonzero by auto. cbn [assert_ bind].
+  rewrite list_eqb_val by auto. reflexivity.
+Qed.
+Theorem ueq_iff a b : canon a -> canon b ->
+  exists e, ueq a b = Ret e /\ (e = true <-> val a = val b).
+Proof. intros Ca Cb. eexists. split; [apply ueq_spec; auto|]. apply Z.eqb_eq. Qed.
+
+Theorem ieq_spec x y : icanon x -> icanon y -> ieq x y = Ret (ival x =? ival y).
+Proof.
+  intros Cx Cy. unfold ieq. rewrite !sign_consistent_canon by auto. cbn [assert_ bind].
+  destruct (icanon_cases x Cx) as [(Sx & Mx & Vx)|[(Sx & Px & Vx)|(Sx & Px & Vx)]];
+  destruct (icanon_cases y Cy) as [(Sy & My & Vy)|[(Sy & Py & Vy)|(Sy & Py & Vy)]];
+    rewrite Sx, Sy, Vx, Vy; cbn [sign_eqb]; try rewrite ueq_spec by (apply icanon_mag; auto); f_equal;
+    try (symmetry; apply Z.eqb_neq; lia); try reflexivity.
+  destruct (Z.eqb_spec (val (mag x)) (val (mag y))), (Z.eqb_spec (- val (mag x)) (- val (mag y))); try lia; reflexivity.
+Qed.
+Theorem ieq_iff x y : icanon x -> icanon y ->
+  exists e, ieq x y = Ret e /\ (e = true <-> ival x = ival y).
+Proof. intros Cx Cy. eexists. split; [apply ieq_spec; auto|]. apply Z.eqb_eq. Qed.
+
+Theorem oeq_spec a b : ocanon a -> ocanon b -> okind a = okind b -> oeq a b = Ret (oval a =? oval b).
+Proof.
+  destruct a, b; cbn; intros Ca Cb K; try discriminate; [apply ueq_spec|apply ieq_spec]; auto.
+Qed.
+
+(** ** Ord *)
+Theorem ocmp_spec a b : ocanon a -> ocanon b -> okind a = okind b -> ocmp a b = Ret (oval a ?= oval b).
+Proof.
+  destruct a, b; cbn; intros Ca Cb K; try discriminate.
+  - apply cmp_slice_spec; auto.
+  - apply icmp_spec; auto.
+Qed.
+
+Theorem omax_spec a b : ocanon a -> ocanon b -> okind a = okind b ->
+  exists m, omax a b = Ret m /\ (m = a \/ m = b) /\ oval m = Z.max (oval a) (oval b).
+Proof.
+  intros Ca Cb K. unfold omax. rewrite ocmp_spec by auto. cbn [bind].
+  destruct (Z.compare_spec (oval a) (oval b)); eexists; (split; [reflexivity|]); split; auto; lia.
+Qed.
+Theorem omin_spec a b : ocanon a -> ocanon b -> okind a = okind b ->
+  exists m, omin a b = Ret m /\ (m = a \/ m = b) /\ oval m = Z.min (oval a) (oval b).
+Proof.
+  intros Ca Cb K. unfold omin. rewrite ocmp_spec by auto. cbn [bind].
+  destruct (Z.compare_spec (oval a) (oval b)); eexists; (split; [reflexivity|]); split; auto; lia.
+Qed.
+
+(** sorting by [cmp] sorts by value *)
+From Coq Require Import Sorting.Permutation Sorting.Sorted.
+Definition good (k : kind) (s : obj) : Prop := ocanon s /\ okind s = k.
+Definition vle (a b : obj) : Prop := oval a <= oval b.
+
+Lemma oinsert_spec k x : good k x -> forall l, Forall (good k) l -> StronglySorted vle l ->
+  exists r, oinsert x l = Ret r /\ Permutation (x :: l) r /\ StronglySorted vle r /\ Forall (good k) r.
+Proof.
+  intros [Cx Kx]. induction l as [|y l IH]; intros Hl Hs; cbn [oinsert].
+  - exists [x]. repeat split; auto. repeat constructor. repeat constructor; auto.
+  - inversion Hl as [|? ? [Cy Ky] Hl']; subst. inversion Hs as [|? ? Hs' Hy]; subst.
+    rewrite ocmp_spec by (auto; congruence). cbn [bind].
+    destruct (Z.compare_spec (oval x) (oval y)) as [E|L|G].
+    + exists (x :: y :: l). repeat split; auto.
+      * constructor; auto. constructor; [unfold vle; lia|].
+        eapply Forall_impl; [|exact Hy]. unfold vle. intros; lia.
+      * constructor; auto. split; auto.
+    + exists (x :: y :: l). repeat split; auto.
+      * constructor; auto. constructor; [unfold vle; lia|].
+        eapply Forall_impl; [|exact Hy]. unfold vle. intros; lia.
+      * constructor; auto. split; auto.
+    + destruct (IH Hl' Hs') as (r & E & Pm & Sr & Gr). rewrite E. cbn [bind].
+      exists (y :: r). repeat split.
+      * eapply perm_trans; [apply perm_swap|]. constructor. exact Pm.
+      * constructor; auto.
+        eapply Permutation_Forall; [exact Pm|]. constructor; [unfold vle; lia|exact Hy].
+      * constructor; auto. split; auto.
+Qed.
+
+Theorem osort_spec k l : Forall (good k) l ->
+  exists r, osort l = Ret r /\ Permutation l r /\ StronglySorted vle r.
+Proof.
+  intros Hl.
+  assert (exists r, osort l = Ret r /\ Permutation l r /\ StronglySorted vle r /\ Forall (good k) r) as (r & E & Pm & S & _).
+  { induction l as [|x l IH]; cbn [osort].
+    - exists []. repeat split; constructor.
+    - inversion Hl as [|? ? Hx Hl']; subst. destruct (IH Hl') as (r & E & Pm & Sr & Gr). rewrite E. cbn [bind].
+      destruct (oinsert_spec k x Hx r Gr Sr) as (r' & E' & Pm' & Sr' & Gr'). exists r'. repeat split; auto.
+      eapply perm_trans; [|exact Pm']. constructor. exact Pm. }
+  eauto.
+Qed.
+
+(** ** Hash *)
+Theorem hash_stream_spec s : ocanon s ->
+  hash_stream s = Ret (match s with
+                       | OU d => zlen d :: d
+                       | OI x => match sg x with NoSign => [1] | sx => sign_disc sx :: zlen (mag x) :: mag x end
+                       end).
+Proof.
+  destruct s as [d|x]; cbn [ocanon hash_stream]; intros C.
+  - unfold uhash. rewrite canon_last_nonzero by auto. reflexivity.
+  - unfold ihash, uhash. rewrite sign_consistent_canon by auto. cbn [assert_ bind].
+    destruct (sg x) eqn:S; cbn [sign_eqb]; try reflexivity;
+      rewrite canon_last_nonzero by (apply icanon_mag; auto); reflexivity.
+Qed.
+
+Theorem hash_fun a b : ocanon a -> ocanon b -> okind a = okind b -> oval a = oval b ->
+  hash_stream a = hash_stream b.
+Proof. intros Ca Cb K V. rewrite (ocanon_inj a b Ca Cb K V). reflexivity. Qed.
+
+(** different integers feed different streams to the hasher *)
+Theorem hash_inj a b : ocanon a -> ocanon b -> okind a = okind b ->
+  hash_stream a = hash_stream b -> oval a = oval b.
+Proof.
+  intros Ca Cb K E. rewrite !hash_stream_spec in E by auto.
+  destruct a as [d|x], b as [e|y]; cbn in K; try discriminate; cbn [oval].
+  - injection E as _ ->. reflexivity.
+  - destruct (icanon_cases x Ca) as [(Sx & Mx & Vx)|[(Sx & Px & Vx)|(Sx & Px & Vx)]];
+    destruct (icanon_cases y Cb) as [(Sy & My & Vy)|[(Sy & Py & Vy)|(Sy & Py & Vy)]];
+      rewrite Sx, Sy in E; cbn [sign_disc] in E; try discriminate; try congruence;
+      injection E as _ E; rewrite Vx, Vy, E; reflexivity.
+Qed.
+
+(** ** NoSign exactly for zero *)
+Theorem nosign_iff_zero x : icanon x -> (sg x = NoSign <-> ival x = 0).
+Proof.
+  intros C. destruct (icanon_cases x C) as [(S & M & V)|[(S & Pp & V)|(S & Pp & V)]]; rewrite S, V;
+    split; intros H; try discriminate; try reflexivity; lia.
+Qed.
+Lemma nosign_iff_zero_b_true s : ocanon s -> nosign_iff_zero_b s = true.
+Proof.
+  destruct s as [d|x]; cbn; intros C; [reflexivity|].
+  destruct (icanon_cases x C) as [(S & M & V)|[(S & Pp & V)|(S & Pp & V)]]; unfold isign, imagnitude; rewrite S; cbn.
+  - rewrite M. reflexivity.
+  - destruct (mag x); [cbn in Pp; lia|reflexivity].
+  - destruct (mag x); [cbn in Pp; lia|reflexivity].
+Qed.
+
+(** ** Exports are functions of the integer *)
+Theorem export_spec e s : ocanon s -> In e (exports_for s) ->
+  export_of e s = sexport (okind s) e (oval s).
+Proof.
+  destruct s as [d|x]; cbn [ocanon exports_for okind oval]; intros C Hin.
+  - assert (W : wf d) by apply C.
+    destruct e; cbn [export_of sexport]; cbn in Hin;
+      try (exfalso; intuition discriminate).
+    + apply uto_u32_digits_spec; auto.
+    + rewrite uto_u64_digits_spec by auto. reflexivity.
+    + apply uto_bytes_le_spec; auto.
+    + apply uto_bytes_be_spec; auto.
+    + rewrite ubits_spec by auto. reflexivity.
+    + rewrite ucount_ones_spec by auto. reflexivity.
+    + rewrite utrailing_zeros_spec by auto. reflexivity.
+  - destruct e; cbn [export_of sexport]; cbn in Hin;
+      try (exfalso; intuition discriminate).
+    + rewrite ito_u32_digits_spec by auto. reflexivity.
+    + rewrite ito_u64_digits_spec by auto. reflexivity.
+    + rewrite ito_bytes_le_spec by auto. reflexivity.
+    + rewrite ito_bytes_be_spec by auto. reflexivity.
+    + apply to_signed_bytes_le_spec; auto.
+    + apply to_signed_bytes_be_spec; auto.
+    + rewrite ibits_spec by auto. reflexivity.
+    + rewrite itrailing_zeros_spec by auto. reflexivity.
+Qed.
+
+Theorem export_fun e a b : ocanon a -> ocanon b -> okind a = okind b -> oval a = oval b ->
+  export_of e a = export_of e b.
+Proof. intros Ca Cb K V. rewrite (ocanon_inj a b Ca Cb K V). reflexivity. Qed.
+
+(** * The property *)
+Section Top.
+  Variable P : hist_params.
+  Hypothesis HP : hist_ok P = true.
+
+  Theorem history_canon c ops s : ctor_wf c -> Forall op_wf ops -> history P c ops = Ret s -> ocanon s.
+  Proof.
+    intros Hc Hw E. unfold history in E. destruct (start c) as [s0| |] eqn:E0; cbn [bind] in E; try discriminate.
+    eapply reachable_canon; eauto.
+  Qed.
+
+  Theorem history_kind c ops s : ctor_wf c -> Forall op_wf ops -> history P c ops = Ret s ->
+    okind s = fst (sconstruct c).
+  Proof.
+    intros Hc Hw E. rewrite history_spec in E by auto. unfold shistory in E.
+    destruct (sconstruct c) as [k v]; cbn [fst snd] in *.
+    destruct (do v0 <- sguard v; srun k v0 ops); cbn in E; try discriminate.
+    injection E as <-. apply okind_oenc.
+  Qed.
+
+  (** Two histories (any constructor, any operations, each returning) that reach the same
+      integer yield the SAME object; and on any two reachable objects of one type every
+      observation is the one the integers dictate. *)
+  Theorem indistinguishable ca opsa cb opsb a b :
+    ctor_wf ca -> Forall op_wf opsa -> ctor_wf cb -> Forall op_wf opsb ->
+    history P ca opsa = Ret a -> history P cb opsb = Ret b -> okind a = okind b ->
+    (oval a = oval b -> a = b) /\
+    oeq a b = Ret (oval a =? oval b) /\
+    ocmp a b = Ret (oval a ?= oval b) /\
+    (oval a = oval b -> hash_stream a = hash_stream b) /\
+    (hash_stream a = hash_stream b -> oval a = oval b) /\
+    (forall e, In e (exports_for a) -> export_of e a = sexport (okind a) e (oval a)) /\
+    (forall e, oval a = oval b -> export_of e a = export_of e b) /\
+    (exists m, omax a b = Ret m /\ (m = a \/ m = b) /\ oval m = Z.max (oval a) (oval b)) /\
+    (exists m, omin a b = Ret m /\ (m = a \/ m = b) /\ oval m = Z.min (oval a) (oval b)) /\
+    (osign a = NoSign <-> oval a = 0).
+  Proof.
+    intros Hca Hwa Hcb Hwb Ea Eb K.
+    pose proof (history_canon ca opsa a Hca Hwa Ea) as Ca.
+    pose proof (history_canon cb opsb b Hcb Hwb Eb) as Cb.
+    split; [apply ocanon_inj; auto|].
+    split; [apply oeq_spec; auto|].
+    split; [apply ocmp_spec; auto|].
+    split; [apply hash_fun; auto|].
+    split; [apply hash_inj; auto|].
+    split; [intros e; apply export_spec; auto|].
+    split; [intros e; apply export_fun; auto|].
+    split; [apply omax_spec; auto|].
+    split; [apply omin_spec; auto|].
+    destruct a as [d|x]; cbn [osign oval].
+    - destruct d as [|d0 d']; [cbn; tauto|]. split; [discriminate|]. intros V.
+      pose proof (canon_val_zero _ Ca V). discriminate.
+    - apply nosign_iff_zero; auto.
+  Qed.
+End Top.
